@@ -229,6 +229,16 @@ def rule_writers(ctx):
             if x[0] == "agg" and x[1].endswith("NetAddress"):
                 v = dict(x[3]).get("version")
                 okv = v is not None and v[0] == "call" and v[1] == "std::option::Option::unwrap_or" and v[2][1] == ("const", 0) and any(y[0] == "call" and y[1] == "std::option::Option::map" for y in subterms(v))
+                if okv:
+                    # the mapped value is the stored version + 1 (a re-announcement must be strictly newer than what peers hold)
+                    from .c07 import norm_arith as _na
+                    okv = False
+                    for y in subterms(v):
+                        if y[0] == "call" and y[1] == "std::option::Option::map" and len(y[2]) == 2 and y[2][1][0] == "closure":
+                            body = Inliner(ctx).inline_closure(y[2][1], [("param", 99, "stored")])
+                            if body is not None:
+                                b2 = _na(body)
+                                okv = b2[0] == "bin" and b2[1] == "Add" and b2[3] == ("const", 1) and chain(b2[2])[1][-2:] == ["msg", "version"]
                 if not okv and v is not None and v[0] == "var":
                     # match / if-let form: 0 when nothing is stored, stored version + 1 otherwise (guard table over the lookup)
                     from .c07 import norm_arith
